@@ -15,7 +15,7 @@ def is_target_fault(tr):
     return any(c["out"] is not None and c["out"][0] == "fault" for c in tr["calls"])
 
 
-def tie_skeleton(ctx, broken, specs_faults, name, need_det_ok=True):
+def tie_skeleton(ctx, broken, specs_faults, name, need_det_ok=True, extra_valid=None):
     """Run/load the traces, compare every one with the skeleton model.  Returns [(trace, parsed|None)]."""
     trs = S.traces(specs_faults, name)
     out, cases, idx = [], [], []
@@ -39,12 +39,17 @@ def tie_skeleton(ctx, broken, specs_faults, name, need_det_ok=True):
             continue
         inputs = S.c_inputs(P)
         detok = f"(det_ok {inputs})" if (P["opts"]["det"] and need_det_ok and not P["crashed"]) else "true"
+        if extra_valid == "noisy" and not P["crashed"] and not P["target_fault"]:
+            fin_in = S.c_final(P)
+            ini = " ".join(S.c_inputs_parts(P)[:5])
+            detok = (f"({detok} && noisy_u_ok {S.c_opts(P['opts'])} (init_phase {ini}) {S.c_inputs_parts(P)[5]} "
+                     f"&& final_est_ok (run_full {inputs} {fin_in}))")
         cases.append(f"((run_full_dump {inputs} {S.c_final(P)}, {detok}), {S.x_expected(P)})")
         idx.append(i)
     ok = ctx.oblige(f"trace_shape:{name}", "correspondence", not shape_errors, str(shape_errors[:3]))
     if not ok:
         broken.append((f"trace_shape:{name}", f"{len(shape_errors)} traces do not have the modelled shape: {shape_errors[:2]}"))
-    okc, bad, log = core.run_cases(f"skel_{ctx.pid}_{name}", ["PV.Model.Val", "PV.Model.Skeleton", "PV.Model.SkeletonValid"],
+    okc, bad, log = core.run_cases(f"skel_{ctx.pid}_{name}", ["PV.Model.Val", "PV.Model.Skeleton", "PV.Model.SkeletonValid", "PV.Model.SkeletonNoisy"],
                                    "(val * bool) * xval", "fun c => snd (fst c) && xval_ok (fst (fst c)) (snd c)", cases, shard=3)
     good = ctx.oblige(f"correspondence:skeleton:{name}", "correspondence", okc and not bad,
                       f"{len(bad)} of {len(cases)} real runs differ from the model; " + log[-400:])
